@@ -33,6 +33,18 @@ CmpOK(k, it) ==
      /\ (it.ne = (sa # sb)) \/ Rep(k, it, "ne")
      /\ (sa = sb => it.heq) \/ Rep(k, it, "hash of equal hands")
 
+\* hands of two different types: no answer is required, a given one must be that of one of the two games
+CrossOK(k, it) ==
+  LET both(t) == Valid(t, it.a) /\ Valid(t, it.b)
+      T == {t \in {it.t1, it.t2} : both(t)}
+  IN /\ (it.eq = "true" => \E t \in T : Strength(t, it.a) = Strength(t, it.b)) \/ Rep(k, it, "== across types: equal under neither game's rules")
+     /\ (it.ne = "false" => \E t \in T : Strength(t, it.a) = Strength(t, it.b)) \/ Rep(k, it, "!= across types: equal under neither game's rules")
+     /\ (it.lt = "true" => \E t \in T : Strength(t, it.a) < Strength(t, it.b)) \/ Rep(k, it, "< across types: under neither game's rules")
+     /\ (it.lt = "false" => \E t \in T : ~(Strength(t, it.a) < Strength(t, it.b))) \/ Rep(k, it, "< across types: under neither game's rules")
+     /\ (it.gt = "true" => \E t \in T : Strength(t, it.a) > Strength(t, it.b)) \/ Rep(k, it, "> across types: under neither game's rules")
+     /\ (it.gt = "false" => \E t \in T : ~(Strength(t, it.a) > Strength(t, it.b))) \/ Rep(k, it, "> across types: under neither game's rules")
+     /\ ~(it.eq = "true" /\ it.ne = "true") \/ Rep(k, it, "== and != both hold")
+
 BestOK(k, it) ==
   LET C == Cands(it.t, it.hole, it.board) IN
   IF ~it.found THEN C = {} \/ Rep(k, it, <<"a legal hand exists", BestStrength(it.t, it.hole, it.board)>>)
@@ -45,6 +57,7 @@ BestOK(k, it) ==
 ItemOK(k, it) ==
   CASE it.kind = "valid" -> (Valid(it.t, it.cards) = it.ok) \/ Rep(k, it, <<"spec says", Valid(it.t, it.cards)>>)
     [] it.kind = "cmp" -> CmpOK(k, it)
+    [] it.kind = "cross" -> CrossOK(k, it)
     [] it.kind = "label" -> (LabelOf(it.t, it.cards) = it.label) \/ Rep(k, it, <<"spec says", LabelOf(it.t, it.cards)>>)
     [] it.kind = "best" -> BestOK(k, it)
     [] it.kind \in AnalysisKinds -> AnalysisOK(k, it)
